@@ -358,6 +358,14 @@ func (c *Context) Quo(d, x, y *Decimal) (Condition, error) {
 				// setExponent.
 				nd = unknownNumDigits
 			}
+		} else {
+			// The quotient is subnormal and will be rounded to Etiny by
+			// setExponent. Append a sticky digit so that the discarded
+			// remainder takes part in that single rounding.
+			d.Coeff.Mul(&d.Coeff, bigTen)
+			d.Coeff.Add(&d.Coeff, bigOne)
+			adjExp10++
+			nd++
 		}
 	}
 
